@@ -335,12 +335,7 @@ func (g *gen) limitsSpend(c *spendCtx) ([]byte, [][]byte) {
 		}
 	case 6: // script of 10000 / 10001 bytes
 		g.note("lim_script_size")
-		for len(script)+524 <= 9000 {
-			script = cat(script, pushWith(rep(1, 520), 2), []byte{OP_DROP})
-		}
-		rest := 10000 + over - len(script) - 1 // leave room for the final OP_1
-		// rest = push header (3) + data + OP_DROP (1)
-		script = cat(script, pushWith(rep(2, rest-4), 2), []byte{OP_DROP, OP_1})
+		script = exactScript(10000 + over)
 	case 7: // nested conditionals up to the op limit
 		g.note("lim_nesting")
 		d := 100
